@@ -154,23 +154,46 @@ func ruleInvalidationWiring(e *Engine, r *Reporter) {
 		}
 	}
 	r.Check(errInv, fname(fc)+" | changelog read error invalidates the store", e.pos(fc.Pos()), "invalidateIteratorCache on error", "when reading the changelog fails the iterator cache is left valid (stale entries keep being served)")
-	// (3) both per-entity invalidations are called in the same block (same change)
-	a := e.Func("internal/cachecontroller", "InMemoryCacheController.invalidateIteratorCacheByObjectRelation")
-	bfn := e.Func("internal/cachecontroller", "InMemoryCacheController.invalidateIteratorCacheByUserAndObjectType")
-	both := false
-	for _, blk := range fc.Blocks {
-		ha, hb := false, false
-		for _, in := range blk.Instrs {
-			if c, ok := in.(ssa.CallInstruction); ok {
-				if staticCallee(c) == a {
-					ha = true
-				}
-				if staticCallee(c) == bfn {
-					hb = true
+	// (3) for one change both per-entity markers are written: some block of the per-change loop (directly or through
+	// same-package helpers, two levels) performs a cache.Set on a key from InvalidIteratorByObjectRelationCacheKey
+	// and one on a key from InvalidIteratorByUserObjectTypeCacheKey
+	var kindsOf func(in ssa.Instruction, depth int) map[string]bool
+	kindsOf = func(in ssa.Instruction, depth int) map[string]bool {
+		out := map[string]bool{}
+		c, ok := in.(ssa.CallInstruction)
+		if !ok {
+			return out
+		}
+		if isCacheSet(c) && len(c.Common().Args) > 0 {
+			d := ""
+			for _, a := range c.Common().Args {
+				d += describe_(a) + " "
+			}
+			for _, k := range []string{"InvalidIteratorByObjectRelationCacheKey", "InvalidIteratorByUserObjectTypeCacheKey"} {
+				if strings.Contains(d, k+"(") {
+					out[k] = true
 				}
 			}
+			return out
 		}
-		if ha && hb {
+		if g := staticCallee(c); g != nil && depth > 0 && len(g.Blocks) > 0 && pkgOf(g) == pkgOf(fc) {
+			eachInstr(g, false, func(in2 ssa.Instruction) {
+				for k := range kindsOf(in2, depth-1) {
+					out[k] = true
+				}
+			})
+		}
+		return out
+	}
+	both := false
+	for _, blk := range fc.Blocks {
+		got := map[string]bool{}
+		for _, in := range blk.Instrs {
+			for k := range kindsOf(in, 2) {
+				got[k] = true
+			}
+		}
+		if len(got) == 2 {
 			both = true
 		}
 	}
